@@ -167,16 +167,21 @@ def gen_generic(seed, nticks=40, laws=("const",), over=None, tps_choices=(1, 2, 
                     refs = [(pid, o) for o in sel]
                 pool = rng.randrange(cfg["npools"]) if rng.random() > bias.get("unknown_pool", 0.02) else cfg["npools"] + rng.randint(0, 2)
                 pk = max([peak_gb(pipes[p]["ops"][o]) for p, o in refs] + [F(1, 64)])
-                ram = rng.choice([pk, pk, pk + F(1, 64), max(pk - F(1, 64), F(1, 64)), F(1, 2), 2, 4, ramq, F(0)] if rng.random() < 0.9 else [ramq * 2])
-                cpu = rng.choice([1, 1, 2, cfg["cpus"], 0] if rng.random() < 0.95 else [cfg["cpus"] + 1])
+                wild = rng.random() < bias.get("wild_amounts", 0.25)
+                ram = rng.choice([pk, pk, pk + F(1, 64), max(pk - F(1, 64), F(1, 64)), F(1, 2), 2] + ([4, ramq, F(0), ramq * 2] if wild else []))
+                cpu = rng.choice([1, 1, 2] + ([cfg["cpus"], 0, cfg["cpus"] + 1] if wild else []))
+                if not wild:
+                    pl = pools[pool] if pool < len(pools) else None
+                    if pl is None or pl["ac"] < cpu or (not cfg["over"] and pl["ar"] < to_q(ram, g.q)):
+                        continue
                 g.assign(pool, cpu, ram, refs)
             for pi, p in enumerate(pools):
                 for c in p["A"]:
                     r = rng.random()
-                    if (c[4] and r < bias.get("suspend", 0.5)) or r < 0.03:
+                    if (c[4] and r < bias.get("suspend", 0.5)) or r < bias.get("bad_suspend", 0.03):
                         g.emit(["suspend", pi if rng.random() > 0.03 else cfg["npools"], c[0]])
                         g.count("suspend_req_legal" if c[4] else "suspend_req_illegal")
-            if rng.random() < 0.01:
+            if rng.random() < bias.get("bad_suspend", 0.03) / 3:
                 g.emit(["suspend", 0, 999])
                 g.count("suspend_req_unknown")
             g.tick()
@@ -185,3 +190,190 @@ def gen_generic(seed, nticks=40, laws=("const",), over=None, tps_choices=(1, 2, 
     finally:
         if own:
             drv.close()
+
+
+# ---------------------------------------------------------------- directed generators
+
+def _mk(rng, cfg, pipes, drv):
+    return GenE(rng, cfg, pipes, drv)
+
+
+def simple_op(tps, ticks, read="0", fixed=None, parents=()):
+    return {"parents": list(parents), "segs": [{"base": fstr(F(ticks, tps)), "law": "const",
+                                                "fixed": None if fixed is None else fstr(fixed), "read": read}]}
+
+
+def gen_suspension(seed, drv):
+    """multi-operator containers suspended at operator boundaries; write-outs of 1, 2 and many ticks run to their
+    end; the remaining work is assigned again; requests at every tick of a container's life"""
+    rng = random.Random(seed)
+    tps = rng.choice([1, 2, 4, 8, 16, 64])
+    ram_pool = rng.choice([F(1, 2), 2, 8, 32, 64])
+    cfg = {"tps": tps, "multi": True, "over": rng.random() < 0.3, "npools": rng.choice([1, 2]), "cpus": rng.choice([2, 4, 8]),
+           "ram": fstr(ram_pool)}
+    pipes = []
+    for _ in range(rng.randint(1, 3)):
+        n = rng.randint(2, 4)
+        pipes.append({"prio": rng.choice([1, 2, 3]), "ops": [simple_op(tps, rng.randint(1, 3), fixed=rng.choice([F(1, 64), F(1, 8)]),
+                                                                       parents=[i - 1] if i else []) for i in range(n)]})
+    g = _mk(rng, cfg, pipes, drv)
+    q, gg = g.q, g.g
+    # allocations giving write-outs of 0->1, 1, 2, many ticks
+    allocs = [F(gg, q) * k for k in (F(1, 2), 1, 2, rng.randint(3, 12))]
+    allocs = [a for a in allocs if a <= ram_pool and (a * 64).denominator == 1] or [F(1, 64)]
+    every_tick = rng.random() < 0.4
+    for pid in range(len(pipes)):
+        refs = sensible_refs(g, pid, True)
+        g.assign(rng.randrange(cfg["npools"]), 1, rng.choice(allocs), refs)
+    for t in range(60):
+        if g.dead:
+            break
+        for pi, p in enumerate(g.pools()):
+            for c in p["A"]:
+                if c[4] and rng.random() < 0.8:
+                    g.emit(["suspend", pi, c[0]]); g.count("suspend_req_legal")
+                elif every_tick and rng.random() < 0.25:
+                    g.emit(["suspend", pi, c[0]]); g.count("suspend_req_illegal")
+            for s_ in p["S"]:
+                if rng.random() < 0.05:
+                    g.emit(["suspend", pi, s_[0]]); g.count("suspend_req_suspending")
+            for d_ in p["D"]:
+                if rng.random() < 0.004:
+                    g.emit(["suspend", pi, d_]); g.count("suspend_req_suspended")
+        # re-assign work that came back
+        for pid in range(len(pipes)):
+            if all(x in "PC" for x in g.st[pid]) and "P" in g.st[pid] and rng.random() < 0.6:
+                refs = sensible_refs(g, pid, True)
+                pool = rng.randrange(cfg["npools"])
+                a = rng.choice(allocs)
+                if g.pools()[pool]["ac"] >= 1 and g.pools()[pool]["ar"] >= to_q(a, q):
+                    g.assign(pool, 1, a, refs)
+        before = sum(len(p["S"]) for p in g.pools())
+        o = g.tick()
+        if o["ok"]:
+            after_d = sum(len(p["D"]) for p in o["state"]["pools"])
+            g.stats["suspended_total"] = after_d
+    g.sc["order"] = g.order
+    return g
+
+
+def gen_oversell(seed, drv):
+    """batches around the free amounts of a pool: exactly fitting, one over in CPU, one quantum over in RAM, both"""
+    rng = random.Random(seed)
+    tps = rng.choice([1, 2, 4, 16])
+    ram_pool = rng.choice([2, 8, 32])
+    cfg = {"tps": tps, "multi": rng.random() < 0.5, "over": rng.random() < 0.4, "npools": rng.choice([1, 2, 3]),
+           "cpus": rng.choice([2, 4, 8]), "ram": fstr(ram_pool)}
+    pipes = [{"prio": 3, "ops": [simple_op(tps, rng.randint(1, 6), fixed=F(1, 64))]} for _ in range(rng.randint(6, 14))]
+    g = _mk(rng, cfg, pipes, drv)
+    q = g.q
+    nxt = 0
+    for t in range(30):
+        if g.dead or nxt >= len(pipes):
+            break
+        pool = rng.randrange(cfg["npools"])
+        p = g.pools()[pool]
+        ac, ar = p["ac"], F(p["ar"], q)
+        k = rng.randint(1, 3)
+        kind = rng.choice(["fit", "fit", "cpu+1", "ram+1", "both", "small"])
+        if ac >= k and ar >= F(k, 64) and nxt + k <= len(pipes):
+            cpus = [ac // k] * k
+            cpus[0] += ac - sum(cpus)
+            rams = [(ar * 64 // k) / 64] * k
+            rams[0] += ar - sum(rams)
+            if kind in ("cpu+1", "both"):
+                cpus[-1] += 1
+            if kind in ("ram+1", "both"):
+                rams[-1] += F(1, 64)
+            if kind == "small":
+                cpus = [1] * k
+                rams = [F(1, 64)] * k
+            if all(c >= 1 for c in cpus) and all(r > 0 for r in rams):
+                for j in range(k):
+                    g.assign(pool, cpus[j], rams[j], [(nxt, 0)])
+                    nxt += 1
+                g.count("batch_" + kind)
+        g.tick()
+    g.sc["order"] = g.order
+    return g
+
+
+def gen_oom(seed, drv, over=True):
+    """several containers with growing memory on an overcommitted pool: the pool crosses its capacity at many moments"""
+    rng = random.Random(seed)
+    tps = rng.choice([1, 2, 4, 8])
+    ram_pool = rng.choice([8, 16, 32, 64])
+    cfg = {"tps": tps, "multi": True, "over": over, "npools": rng.choice([1, 1, 2]), "cpus": 16, "ram": fstr(ram_pool)}
+    pipes = []
+    for _ in range(rng.randint(3, 8)):
+        n = rng.randint(1, 3)
+        ops = []
+        for i in range(n):
+            read = rng.choice([F(5, 2), 5, 10, 20, 40])
+            fixed = rng.choice([None, None, None, rng.choice([1, 4, 8, 16])])
+            ops.append(simple_op(tps, rng.randint(0, 4), read=fstr(read), fixed=fixed, parents=[i - 1] if i else []))
+        pipes.append({"prio": 3, "ops": ops})
+    g = _mk(rng, cfg, pipes, drv)
+    started = 0
+    for t in range(50):
+        if g.dead:
+            break
+        while started < len(pipes) and rng.random() < 0.6:
+            pool = rng.randrange(cfg["npools"])
+            if g.pools()[pool]["ac"] < 1:
+                break
+            pk = max(peak_gb(o) for o in pipes[started]["ops"])
+            ram = rng.choice([pk, pk * 2, pk + F(1, 64), max(pk / 2, F(1, 64)), F(ram_pool), max(pk - F(1, 64), F(1, 64))])
+            if (F(ram) * 64).denominator != 1:
+                ram = pk
+            if not over:
+                ram = min(F(ram), F(g.pools()[pool]["ar"], g.q))
+                if ram <= 0:
+                    break
+            g.assign(pool, 1, ram, sensible_refs(g, started, True))
+            started += 1
+        o = g.tick()
+        if o["ok"]:
+            nf = sum(1 for r in o["res"] if not r[1])
+            if nf >= 2:
+                g.count("ticks_with_2plus_failures")
+        # retry failed pipelines sometimes
+        for pid in range(started):
+            if "F" in g.st[pid] and all(x in "FCP" for x in g.st[pid]) and rng.random() < 0.3:
+                pool = rng.randrange(cfg["npools"])
+                if g.pools()[pool]["ac"] >= 1:
+                    pk = max(peak_gb(o) for o in pipes[pid]["ops"])
+                    ram = pk if over else min(pk, F(g.pools()[pool]["ar"], g.q))
+                    if ram > 0:
+                        g.assign(pool, 1, ram, sensible_refs(g, pid, True))
+    g.sc["order"] = g.order
+    return g
+
+
+def gen_parents(seed, drv):
+    """a start attempted with k of n parents complete (0 <= k <= n <= 3), as first operator of a container and as a later one"""
+    rng = random.Random(seed)
+    tps = rng.choice([1, 2, 4])
+    n = rng.randint(1, 3)
+    k = rng.randint(0, n)
+    later = rng.random() < 0.5
+    multi = True
+    cfg = {"tps": tps, "multi": multi, "over": False, "npools": 1, "cpus": 8, "ram": "8"}
+    ops = [simple_op(tps, rng.randint(1, 2), fixed=F(1, 64)) for _ in range(n)]
+    ops.append(simple_op(tps, 1, fixed=F(1, 64), parents=list(range(n))))      # child, index n
+    ops.append(simple_op(tps, 1, fixed=F(1, 64)))                               # independent operator, index n+1
+    g = _mk(rng, cfg, [{"prio": 3, "ops": ops}], drv)
+    done = rng.sample(range(n), k)
+    for p in done:
+        g.assign(0, 1, F(1, 64), [(0, p)])
+    for _ in range(4):
+        g.tick()
+    refs = [(0, n + 1), (0, n)] if later else [(0, n)]
+    g.assign(0, 1, F(1, 64), refs)
+    g.count(f"start_k{k}_of_n{n}_{'later' if later else 'first'}")
+    for _ in range(4):
+        if g.dead:
+            break
+        g.tick()
+    g.sc["order"] = g.order
+    return g
